@@ -39,7 +39,7 @@ LEVEL_TEXT = ('exploration: ~2*10^4 (quick) / ~3*10^5 (thorough) generated solve
 LEVEL_NOTE = ('trusted base: vf/linalgq.py; inputs not generated are not covered; the tolerance constants 2^(10-p) come from '
               'the statement, the norms from the stated reading')
 TECHNIQUE = 'runtime reference-model monitor: exact rational linear algebra oracle on every observed result'
-SHARD_TIMEOUT = {'quick': 400, 'thorough': 2400}
+SHARD_TIMEOUT = {'quick': 800, 'thorough': 10800}   # thorough: a shard needs ~150 CPU-s; the cap only bounds hangs (a loaded machine at 5% CPU per worker exceeded the former 2400 s)
 
 NSHARDS = 16
 CASES = {'quick': 2500, 'thorough': 25000}
